@@ -1,15 +1,16 @@
 #!/bin/bash
 # Re-run every kept seeded change ($V/seeded/*/patch.diff) against the quick check of the property
 V="$(cd "$(dirname "$0")/.." && pwd)"
+REPO="${REPO:-/repo}"; mkdir -p "$V/.build"
 # it breaks (meta.json: property). Expects exit 1 each time. /repo is restored after each.
 cd "$V"
-if [ -n "$(git -C /repo status --porcelain --untracked-files=no)" ]; then echo "/repo is dirty"; exit 2; fi
+if [ -n "$(git -C "$REPO" status --porcelain --untracked-files=no)" ]; then echo "$REPO is dirty"; exit 2; fi
 for d in seeded/${1:-}*/; do
   id=$(basename $d)
   p=$(python3 -c "import json;print(json.load(open('$d/meta.json'))['property'])")
-  if ! git -C /repo apply $V/$d/patch.diff 2>/dev/null; then echo "STALE  $id"; continue; fi
+  if ! git -C "$REPO" apply $V/$d/patch.diff 2>/dev/null; then echo "STALE  $id"; continue; fi
   ./check $p --tier quick > .build/seedall-$id.log 2>&1; code=$?
   rule=$(grep -m1 "rule=" .build/seedall-$id.log | sed 's/^ *//' | cut -c1-130)
   if [ $code -eq 1 ]; then echo "CAUGHT $id by $p  $rule"; else echo "MISSED $id by $p (exit $code)"; fi
-  git -C /repo checkout -- .
+  git -C "$REPO" checkout -- .
 done
